@@ -54,6 +54,7 @@ type c13part struct {
 	script []string // "open", "close"
 	resume chan struct{}
 	db     *pogreb.DB
+	closedDB *pogreb.DB
 	holder bool
 	done   bool
 	at     string
@@ -79,6 +80,12 @@ type c13run struct {
 // the sorted ready list); beyond len(choices) the first ready participant is taken. It returns the ready-set
 // sizes per step and the choice string actually taken.
 func c13Execute(fsk core.FSKind, scenario [][]string, choices []int) (readyCounts []int, taken []int, r *c13run, inconclusive string) {
+	return c13ExecuteFrom(fsk, scenario, choices, true)
+}
+
+// c13ExecuteFrom: with holdFirst the first participant holds the database when the schedule starts; without,
+// the directory starts cleanly closed (no lock file) and nobody holds it.
+func c13ExecuteFrom(fsk core.FSKind, scenario [][]string, choices []int, holdFirst bool) (readyCounts []int, taken []int, r *c13run, inconclusive string) {
 	env := core.NewEnv(fsk)
 	defer env.Cleanup()
 	cfg := core.Config{}
@@ -93,9 +100,14 @@ func c13Execute(fsk core.FSKind, scenario [][]string, choices []int) (readyCount
 		return nil, nil, r, "setup put: " + err.Error()
 	}
 	r.acked["base"] = "v"
+	if !holdFirst {
+		if err := db0.Close(); err != nil {
+			return nil, nil, r, "setup close: " + err.Error()
+		}
+	}
 	for i, sc := range scenario {
 		p := &c13part{id: i, name: string(rune('A' + i)), script: sc, resume: make(chan struct{})}
-		if i == 0 {
+		if i == 0 && holdFirst {
 			p.db = db0
 			p.holder = true
 		}
@@ -145,7 +157,26 @@ func c13Execute(fsk core.FSKind, scenario [][]string, choices []int) (readyCount
 						if err := p.db.Close(); err != nil {
 							p.errs = append(p.errs, "Close: "+err.Error())
 						}
+						p.closedDB = p.db
 						p.db = nil
+					}
+				case "open2":
+					// another Open by the same participant while its first handle is still open: must be refused
+					if p.db != nil {
+						db2, err := env.Open(cfg)
+						if err == nil {
+							p.errs = append(p.errs, "a second Open succeeded while this participant's first handle is still open: two open handles on one directory")
+							db2.Close()
+						} else if pogreb.VerifIsLocked(err) {
+							r.locked++
+						} else {
+							p.errs = append(p.errs, "Open failed with an error other than 'locked': "+err.Error())
+						}
+					}
+				case "close-again":
+					// a second Close on a handle that was already closed: whatever it returns, it must not disturb others
+					if p.closedDB != nil {
+						p.closedDB.Close()
 					}
 				}
 				if ai < len(p.script)-1 {
@@ -249,6 +280,10 @@ func c13Next(readyCounts, taken []int, floor int) []int {
 }
 
 var c13Scenarios = map[string][][]string{
+	"fresh-open-vs-open":             {{"open"}, {"open"}},
+	"fresh-open-open-open":           {{"open"}, {"open"}, {"open"}},
+	"2p-close-closeagain-vs-open":    {{"close", "close-again"}, {"open"}},
+	"2p-close-closeagain-vs-open-open2": {{"close", "close-again"}, {"open", "open2"}},
 	"2p-close-vs-open":       {{"close"}, {"open", "close"}},
 	"2p-closeopen-vs-open":   {{"close", "open"}, {"open"}},
 	"3p-close-open-open":     {{"close"}, {"open"}, {"open"}},
@@ -275,7 +310,7 @@ func runC13(c *core.Ctx) {
 			seenP := map[string]bool{}
 			var choices []int
 			for {
-				rc, tk, _, inc := c13Execute(fsk, scenario, choices)
+				rc, tk, _, inc := c13ExecuteFrom(fsk, scenario, choices, !strings.HasPrefix(name, "fresh"))
 				if inc != "" {
 					c.Inconclusive("%s", inc)
 					return
@@ -304,7 +339,7 @@ func runC13(c *core.Ctx) {
 			choices := append([]int(nil), prefix...)
 			n := 0
 			for {
-				rc, tk, r, inc := c13Execute(fsk, scenario, choices)
+				rc, tk, r, inc := c13ExecuteFrom(fsk, scenario, choices, !strings.HasPrefix(name, "fresh"))
 				if inc != "" {
 					c.Inconclusive("%s", inc)
 					return
@@ -347,15 +382,30 @@ func runC13(c *core.Ctx) {
 		}
 	}
 	// 2-participant scenarios: exhaustive, in the first two cases of each file system
-	if c.Case < 4 {
-		if c.Case < 2 {
+	if c.Case < 8 {
+		switch c.Case / 2 {
+		case 0:
 			explore("2p-close-vs-open", fsk, nil, 0, 0)
-		} else {
+		case 1:
 			explore("2p-closeopen-vs-open", fsk, nil, 0, 0)
+		case 2:
+			explore("fresh-open-vs-open", fsk, nil, 0, 0)
+			explore("fresh-open-open-open", fsk, nil, 0, 400)
+		default:
+			explore("2p-close-closeagain-vs-open", fsk, nil, 0, 0)
+			explore("2p-close-closeagain-vs-open-open2", fsk, nil, 0, 0)
 		}
+	}
+	if c.Case < 4 {
 		// call-granularity interleavings on the file systems without internal steps
 		for _, k := range []core.FSKind{core.FSMem, core.FSCrash} {
 			for name := range c13Scenarios {
+				if k == core.FSMem && strings.Contains(name, "closeagain") {
+					// fs.Mem handles of one file share their state (reference count): a second Close on a closed handle
+					// closes the files of the other handle. That is a property of the test-only file system, not of the
+					// lock protocol; the scenario runs on OS, OSMMap and CrashFS.
+					continue
+				}
 				explore(name, k, nil, 0, 0)
 			}
 		}
